@@ -49,6 +49,8 @@ func main() {
 		os.Exit(replayMain(os.Args[2]))
 	case "job":
 		jobMain(os.Args[2:])
+	case "selfcheck":
+		os.Exit(selfcheck())
 	case "list":
 		for _, h := range registry {
 			fmt.Println(h.Prop, h.Pkg, h.Func, h.Link, h.Quick, h.Thorough)
@@ -56,4 +58,32 @@ func main() {
 	default:
 		usage()
 	}
+}
+
+// selfcheck: the solvers answer and agree on a tiny query, the pinned compiler compiles a contract of the
+// working tree, a chain can be started.
+func selfcheck() int {
+	s := newSolver()
+	defer s.close()
+	x := VarR("selfcheck_x", nil, nil)
+	r1, _ := s.check(Le(I(0), x), []*T{Lt(x, I(0))}, nil)
+	r2, m := s.check(Le(I(0), x), []*T{Lt(x, I(5))}, []*T{x})
+	r3, _ := s.askStandalone(s.secondary(1), Le(I(0), x), []*T{Lt(x, I(0))}, nil)
+	r4, _ := s.askStandalone(s.secondary(2), Le(I(0), x), []*T{Lt(x, I(0))}, nil)
+	fmt.Println("solvers:", r1, r2, m, r3, r4)
+	if r1 != "unsat" || r2 != "sat" || r3 != "unsat" || r4 != "unsat" {
+		fmt.Println("selfcheck: solver portfolio not usable")
+		return 1
+	}
+	msg := guard(func() {
+		w := newWorld(4, true)
+		defer w.close()
+		fmt.Printf("chain up, committee of 4; balance contract hash %x\n", w.hashOf("balance"))
+	})
+	if msg != "" {
+		fmt.Println("selfcheck:", msg)
+		return 1
+	}
+	fmt.Println("selfcheck ok")
+	return 0
 }
